@@ -27,7 +27,7 @@ Definition refs_boxed (m : machine) : bool :=
 Definition chkX (c : call) (m : machine) : bool :=
   match c with
   | KDropCc o => negb (nyb m o)
-  | KDropList L rest d => forallb (fun g => negb (nyb m g)) L
+  | KDropList L rest d => forallb (fun g => negb (nyb m g)) (L ++ rest)
   | KCmd self (CDropValue v) =>
     match mjoin (values m !! v) with Some o => negb (nyb m o) | None => true end
   | KCmd self (CTryUnwrap l v) => refs_boxed m
@@ -79,8 +79,11 @@ Section Ok.
     - cbn [chkX]. destruct Hpre as (_ & HS & _). cbn [own_of app] in HS.
       destruct (sv_E K _ _ _ _ HS o) as (xt & Hxt & Eb); [left|].
       apply (nyb_alloc _ _ _ Hxt). congruence.
-    - cbn [chkX]. destruct Hpre as (_ & _ & _ & HM & _).
+    - cbn [chkX]. destruct Hpre as (_ & _ & (dn & HL) & HM & _).
       apply forallb_forall. intros g Hin. apply elem_of_list_In in Hin.
+      assert (Hin' : g ∈ L).
+      { apply elem_of_app in Hin as [Hin|Hin]; [exact Hin|]. rewrite HL. apply elem_of_app. right. exact Hin. }
+      clear Hin. rename Hin' into Hin.
       destruct (HM g Hin) as (_ & _ & x & Hx & Hb & _). apply (nyb_alloc _ _ _ Hx). congruence.
   Qed.
 
